@@ -3,17 +3,23 @@
    (limits in id order, instance slots, assertions), L any likelihood of the instance, lp any family
    of per-prior log-prior functions, r the resample value, I any implementation traits. *)
 From Coq Require Import ZArith QArith List Bool.
-From PAFC04 Require Import Gen Model Proofs Witness.
+From Coq Require Import Floats.PrimFloat.
+From PAFC04 Require Import Gen Model Proofs Witness Wiring.
 Import ListNotations.
 
 (* what "successfully evaluated" means: right length, every entry within its prior's limits, every
    assertion holds, the likelihood of the instance returns a number that is not nan *)
 Theorem C04_success_iff : forall (V : Type) (N : num V) (m : @model V) (L : @lik V) (vec : list V) (ll : V) (b : bool),
   evaluate N m L vec = EvOk ll b <->
-  (length vec = prior_count m /\ limits_ok N (m_limits m) vec = true /\
+  (length vec = prior_count m /\ limits_gate N m vec = true /\
    forallb (assert_ok N vec) (m_asserts m) = true /\
    L (instance N m vec) = LRet ll b /\ n_isnan N ll = false).
 Proof. exact @evaluate_ok_iff. Qed.
+
+(* limits_gate is the limit check unless the process runs with USE_JAX=1 *)
+Theorem C04_limits_gate_nojax : forall (V : Type) (N : num V) (m : @model V) (vec : list V),
+  m_jax m = false -> limits_gate N m vec = limits_ok N (m_limits m) vec.
+Proof. exact @limits_gate_nojax. Qed.
 
 Theorem C04_limits_gate : forall (V : Type) (N : num V) (lims : list (V * V)) (vec : list V),
   length vec = length lims ->
@@ -57,12 +63,24 @@ Proof. exact (fun V lp => @lp_list_length V lp 0%nat). Qed.
 (* limit violation, assertion violation, FitException, nan: the search receives r *)
 Theorem C04_resample : forall (V : Type) (N : num V) (m : @model V) (L : @lik V) (lp : @lprior V) (fl : flags) (r : V) (vec : list V),
   length vec = prior_count m ->
-  (limits_ok N (m_limits m) vec = false \/
+  (limits_gate N m vec = false \/
    forallb (assert_ok N vec) (m_asserts m) = false \/
    L (instance N m vec) = LRaise \/
    (exists ll b, L (instance N m vec) = LRet ll b /\ n_isnan N ll = true)) ->
   call_value N m L lp fl r vec = Returned r.
 Proof. exact @resample_cases. Qed.
+
+(* "outside limits -> resample": full statement refuted (USE_JAX=1 skips the check), holds without it *)
+Theorem C04_limits_resample_refuted :
+  exists (m : @model Q) L lp fl r vec,
+    length vec = prior_count m /\ limits_ok numQ (m_limits m) vec = false /\
+    call_value numQ m L lp fl r vec <> Returned r.
+Proof. exact jax_limits_refuted. Qed.
+
+Theorem C04_limits_resample_partial : forall (V : Type) (N : num V) (m : @model V) (L : @lik V) (lp : @lprior V) (fl : flags) (r : V) (vec : list V),
+  m_jax m = false -> length vec = prior_count m -> limits_ok N (m_limits m) vec = false ->
+  call_value N m L lp fl r vec = Returned r.
+Proof. exact @limits_resample_nojax. Qed.
 
 (* no exception escapes for a vector of the model's length; the only escape of the model is the
    AssertionError of a vector of another length *)
@@ -91,26 +109,12 @@ Theorem C04_history : forall (V : Type) (N : num V) (I : impl) (m : @model V) (L
   view (fst (run N I m L lp fl r false (fresh h) ops)) = spec_history N m L fl (trace false h ops).
 Proof. exact (fun V N I m L lp fl r h ops Ha Hi => @history_byvalue V N I m L lp fl r h ops Ha (or_introl Hi)). Qed.
 
-(* pinned code: the full statement fails ... *)
-Theorem C04_history_refuted :
-  exists (m : @model Q) L lp fl r h ops,
-    view (fst (run numQ buggy_impl m L lp fl r false (fresh h) ops)) <> spec_history numQ m L fl (trace false h ops).
-Proof. exact history_alias_refuted. Qed.
-
-Theorem C04_history_likelihood_refuted :
-  exists (m : @model Q) L lp fl r h ops,
-    no_write_after_call ops = true /\
-    view (fst (run numQ buggy_impl m L lp fl r false (fresh h) ops)) <> spec_history numQ m L fl (trace false h ops).
-Proof. exact history_inplace_refuted. Qed.
-
-(* ... and holds for every implementation traits whenever no buffer is overwritten after a call on it
-   and the likelihood is never a mutable 0-d array (or the mode is not likelihood + chi-squared) *)
-Theorem C04_history_partial : forall (V : Type) (N : num V) (I : impl) (m : @model V) (L : @lik V) (lp : @lprior V) (fl : flags) (r : V)
+(* ... and these are the traits of the code as it is now (Gen.v): the proof terms are eq_refl on the
+   regenerated constants, so a regression of a trait stops this file from compiling *)
+Theorem C04_history_current : forall (V : Type) (N : num V) (m : @model V) (L : @lik V) (lp : @lprior V) (fl : flags) (r : V)
     (h : list (list V)) (ops : list (@op V)),
-  no_write_after_call ops = true ->
-  (never_boxed L \/ fl_like fl && fl_chi2 fl = false) ->
-  view (fst (run N I m L lp fl r false (fresh h) ops)) = spec_history N m L fl (trace false h ops).
-Proof. exact (fun V N I m L lp fl r h ops Hn Hb => @history_partial V N I m L lp fl r h ops Hn (or_intror Hb)). Qed.
+  view (fst (run N current_impl m L lp fl r false (fresh h) ops)) = spec_history N m L fl (trace false h ops).
+Proof. exact (fun V N m L lp fl r h ops => @history_byvalue V N current_impl m L lp fl r h ops eq_refl (or_introl eq_refl)). Qed.
 
 Theorem C04_history_off : forall (V : Type) (N : num V) (I : impl) (m : @model V) (L : @lik V) (lp : @lprior V) (fl : flags) (r : V)
     (h : list (list V)) (ops : list (@op V)),
@@ -127,25 +131,12 @@ Theorem C04_constructor : forall (V : Type) (N : num V) (I : impl) (m : @model V
   (forall st', construct N I m L lp fl r false late st pbuf = Some st' -> st' = st).
 Proof. exact @construct_direct_spec. Qed.
 
-(* earlier code (evaluation through __call__): with the history lists created first no exception escapes and the
-   evaluation is an ordinary call ... *)
-Theorem C04_constructor_via_call : forall (V : Type) (N : num V) (I : impl) (m : @model V) (L : @lik V) (lp : @lprior V) (fl : flags) (r : V)
+Theorem C04_constructor_current : forall (V : Type) (N : num V) (m : @model V) (L : @lik V) (lp : @lprior V) (fl : flags) (r : V)
     (st : @state V) (pbuf : nat),
-  construct_via_call N I m L lp fl r false st pbuf = Some (fst (step N I m L lp fl r st (OCall pbuf))).
-Proof. exact @construct_early. Qed.
-
-(* ... as first pinned (lists created afterwards): refuted; it raises exactly when the evaluation succeeds and the
-   history is switched on, and otherwise leaves a fresh fitness *)
-Theorem C04_constructor_refuted :
-  exists (m : @model Q) L lp fl r h pbuf, construct_via_call numQ buggy_impl m L lp fl r true (fresh h) pbuf = None.
-Proof. exact constructor_refuted. Qed.
-
-Theorem C04_constructor_partial : forall (V : Type) (N : num V) (I : impl) (m : @model V) (L : @lik V) (lp : @lprior V) (fl : flags) (r : V)
-    (h : list (list V)) (pbuf : nat),
-  (construct_via_call N I m L lp fl r true (fresh h) pbuf = None <->
-   (fl_store fl = true /\ exists ll b, evaluate N m L (buf h pbuf) = EvOk ll b)) /\
-  (forall st, construct_via_call N I m L lp fl r true (fresh h) pbuf = Some st -> st = fresh h).
-Proof. exact (fun V N I m L lp fl r h pbuf => conj (@construct_late_raises_iff V N I m L lp fl r h pbuf) (@construct_late_otherwise V N I m L lp fl r h pbuf)). Qed.
+  ((exists ll b, evaluate N m L (buf (heap st) pbuf) = EvOk ll b) <->
+   construct N current_impl m L lp fl r impl_ctor_via_call impl_ctor_history_late st pbuf = Some st) /\
+  (forall st', construct N current_impl m L lp fl r impl_ctor_via_call impl_ctor_history_late st pbuf = Some st' -> st' = st).
+Proof. exact (fun V N m L lp fl r st pbuf => @construct_direct_spec V N current_impl m L lp fl r impl_ctor_history_late st pbuf). Qed.
 
 (* pyswarms: a particle of the model's length gets -2*(ll + sum of terms) unless that is nan, a limit or
    assertion fails or FitException is raised, in which case it gets the generated resample value;
@@ -177,17 +168,50 @@ Theorem C04_pyswarms_run : forall (V : Type) (N : num V) (I : impl) (m : @model 
   snd (run N I m L lp fl r true (fresh h) ops) = spec_outputs_ps N m L lp r h ops.
 Proof. exact @pyswarms_run. Qed.
 
-Theorem C04_pyswarms_history_refuted :
-  exists (m : @model Q) L lp fl r h ops,
-    Forall (fun v => length v = prior_count m) (trace true h ops) /\
-    view (fst (run numQ buggy_impl m L lp fl r true (fresh h) ops)) <> spec_history_ps numQ m L lp r fl (trace true h ops).
-Proof. exact pyswarms_history_refuted. Qed.
+Theorem C04_pyswarms_current : forall (V : Type) (N : num V) (m : @model V) (L : @lik V) (lp : @lprior V) (fl : flags) (r : V)
+    (h : list (list V)) (ops : list (@op V)),
+  Forall (fun v => length v = prior_count m) (trace true h ops) ->
+  view (fst (run N current_impl m L lp fl r true (fresh h) ops)) = spec_history_ps N m L lp r fl (trace true h ops) /\
+  snd (run N current_impl m L lp fl r true (fresh h) ops) = spec_outputs_ps N m L lp r h ops.
+Proof. exact (fun V N m L lp fl r h ops HF => @pyswarms_run V N current_impl m L lp fl r h ops HF). Qed.
+
+(* pyswarms against the text of the property: with the flags it is wired with (posterior, chi-squared) a
+   successful particle gets what the plain fitness returns; for any other flags it does not (the class
+   consults no flag), and a resampled particle gets -2*r, not r *)
+Theorem C04_pyswarms_matches_fitness : forall (lp : @lprior Q) (vec : list Q) (ll : Q) (s : bool),
+  ps_merit numQ lp vec ll == merit numQ {| fl_like := false; fl_chi2 := true; fl_store := s |} lp vec ll.
+Proof. exact ps_matches_fitness_Q. Qed.
+
+Theorem C04_pyswarms_flags_refuted :
+  exists fl (lp : @lprior Q) vec ll, ~ ps_merit numQ lp vec ll == merit numQ fl lp vec ll.
+Proof. exact pyswarms_flags_refuted. Qed.
+
+Theorem C04_pyswarms_resample_refuted : exists r : Q, ~ p_res numQ r == r.
+Proof. exact pyswarms_resample_refuted. Qed.
+
+(* the wiring of the searches (Gen.wiring, regenerated): every search passes the flags of what it does
+   (posterior for MCMC/MLE, likelihood for nested samplers, chi-squared exactly for the two minimisers,
+   the pyswarms class exactly for pyswarms) ... *)
+Theorem C04_wiring_flags : forallb flags_ok wiring = true.
+Proof. exact wiring_flags. Qed.
+
+(* ... what a search receives for a vector to be resampled is beyond +-1e99 on the bad side of the
+   direction it optimises -- for every search except BFGS/LBFGS, whose pinned wiring hands a minimiser -inf *)
+Theorem C04_wiring_resample_partial : forallb (fun e => resample_ok e || w_bfgs (w_file e)) wiring = true.
+Proof. exact wiring_resample_except_bfgs. Qed.
+
+Theorem C04_wiring_resample_refuted :
+  flags_ok bfgs_pinned = true /\ resample_ok bfgs_pinned = false /\ w_delivered bfgs_pinned = neg_infinity.
+Proof. exact bfgs_pinned_refuted. Qed.
+
+Theorem C04_wiring_pyswarms : existsb (fun e => w_pyswarms (w_file e)) wiring = true /\
+  forallb (fun e => negb (w_pyswarms (w_file e)) || PrimFloat.eqb (w_delivered e) infinity) wiring = true.
+Proof. exact (conj wiring_covers_anchored pyswarms_delivered). Qed.
 
 Print Assumptions C04_fom.
 Print Assumptions C04_fom_meaning.
 Print Assumptions C04_history.
-Print Assumptions C04_history_partial.
-Print Assumptions C04_history_refuted.
+Print Assumptions C04_history_current.
 Print Assumptions C04_pyswarms_run.
-Print Assumptions C04_constructor_partial.
+Print Assumptions C04_wiring_resample_partial.
 Print Assumptions C04_constructor.
